@@ -9,7 +9,7 @@ from harness.common import NATURAL, net
 from mingus.containers import Track, Composition, Bar, Note
 
 ID = "C14"
-LEAN_MODULES = ["Mingus.Props.C14", "Mingus.Tie.C14"]
+LEAN_MODULES = ["Mingus.Props.C14", "Mingus.Props.C14Full", "Mingus.Props.C14Chords", "Mingus.Tie.C14"]
 RULE = ("all add_notes/'+'/add_bar sequences of depth <=3 (quick) / <=4 (thorough) over notes, chords, rests x 6 values x "
         "instruments {none, Instrument, Piano, Guitar, MidiInstrument}; seeded random histories up to 60 steps over the whole "
         "value vocabulary, 4 meters, 3 keys; in-range / out-of-range notes and rests for every instrument; from_chords on "
